@@ -16,3 +16,4 @@ import Dsi.Props.IOView
 import Dsi.Props.C10
 import Dsi.Props.C16
 import Dsi.Props.C05
+import Dsi.Props.EndToEnd
